@@ -19,7 +19,11 @@ the observation function shared by both properties lives):
                     p~FL~CODE~SEGS    AS_PATH (2) / AS4_PATH (17) as wire segments `TY:ASN.ASN{,..}` | `-`
                     r~FL~CODE~HEX     attribute of an unrecognised type
                     m~FL~FAM~NH~ITEMS MP_REACH_NLRI     (FAM = Rust name of the family, NH hex)
+                    m~FL~FAM~NH~ITEMS~RSV   the same with the reserved octet RSV (decimal) instead of 0
                     u~FL~FAM~ITEMS    MP_UNREACH_NLRI
+                    M~FL~AFI.SAFI~NH~RSV~HEX   MP_REACH_NLRI of any (AFI, SAFI) code points (meant for the
+                                      unsupported ones): next-hop field, reserved octet, opaque octets
+                    U~FL~AFI.SAFI~HEX MP_UNREACH_NLRI of any (AFI, SAFI) with opaque octets
   reply           ok HEX | err | panic
 -/
 import Rc.Model.UpdateObs
@@ -139,6 +143,18 @@ def showOO {α : Type} (sh : α → String) (x : Outcome (Option α)) : String :
 
 def showPath (x : Bytes × AsPath.HopPath) : String := s!"{hexOrDash x.1}:{Rc.Drv.C13.showHops x.2}"
 
+/-- `hops()`, `segments()` and the segments' `asns()` of a returned `AsPath`, each
+driven to its end: the three counts (C02 `hops_bounded`: each is at most the number of value octets) -/
+def showPathIter (four : Bool) (x : Outcome (Option (Bytes × AsPath.HopPath))) : String :=
+  match x with
+  | .ok none => "-"
+  | .ok (some (v, h)) =>
+    match AsPath.segments four v with
+    | .ok ss => s!"{h.length}.{ss.length}.{(ss.map fun sg => sg.asns.length).sum}"
+    | _ => "panic"
+  | .err => "err"
+  | .panic => "panic"
+
 def showComms (x : Option (List (Outcome Bytes) × Bool)) : String :=
   match x with
   | none => "none"
@@ -191,6 +207,7 @@ def observe (m : Msg) : String :=
     g "origin" (showOO toString o.origin),
     g "aspath" (showOO showPath o.aspath),
     g "as4path" (showOO showPath o.as4path),
+    g "pit" s!"{showPathIter m.ppi.four o.aspath}/{showPathIter true o.as4path}",
     g "cnh" (showOO showNh o.convNextHop),
     g "mnh" (showOO showNh o.mpNextHop),
     g "fnh" (
@@ -253,6 +270,15 @@ def readSeg (s : String) : Option AsPath.Seg :=
 def readSegs (s : String) : Option (List AsPath.Seg) :=
   if s == "-" then some [] else (s.splitOn ",").mapM readSeg
 
+/-- `AFI.SAFI` in decimal -/
+def readKey (s : String) : Option (Nat × Nat) :=
+  match s.splitOn "." with
+  | [a, b] =>
+    match decNat a, decNat b with
+    | some a, some b => if a < 65536 && b < 256 then some (a, b) else none
+    | _, _ => none
+  | _ => none
+
 def readAttr (s : String) : Option AttrC :=
   match s.splitOn "~" with
   | ["t", fl, v] =>
@@ -270,7 +296,19 @@ def readAttr (s : String) : Option AttrC :=
     | _, _, _ => none
   | ["m", fl, fam, nh, items] =>
     match readFlags fl, famOfName fam, bytesOfHex nh with
-    | some fl, some f, some nh => (readItems f items).map fun l => .reach fl f nh l
+    | some fl, some f, some nh => (readItems f items).map fun l => .reach fl f nh 0 l
+    | _, _, _ => none
+  | ["m", fl, fam, nh, items, rsv] =>
+    match readFlags fl, famOfName fam, bytesOfHex nh, readFlags rsv with
+    | some fl, some f, some nh, some rsv => (readItems f items).map fun l => .reach fl f nh rsv l
+    | _, _, _, _ => none
+  | ["M", fl, k, nh, rsv, body] =>
+    match readFlags fl, readKey k, bytesOfHex nh, readFlags rsv, bytesOfHex body with
+    | some fl, some k, some nh, some rsv, some body => some (.reachU fl k nh rsv body)
+    | _, _, _, _, _ => none
+  | ["U", fl, k, body] =>
+    match readFlags fl, readKey k, bytesOfHex body with
+    | some fl, some k, some body => some (.unreachU fl k body)
     | _, _, _ => none
   | ["u", fl, fam, items] =>
     match readFlags fl, famOfName fam with
